@@ -220,9 +220,27 @@ func (fr *Frame) copyModel(c *ssa.CallCommon, st *State, reach string) string {
 	dt := c.Args[0].Type().Underlying().(*types.Slice)
 	et := dt.Elem()
 	if isAggregate(et) {
-		vc.Unmodelled["copy of struct elements abstracted"]++
-		r := vc.fresh("copy", "Int")
-		return r
+		flds, flat := vc.flatFieldVars(et)
+		if !flat {
+			// nested aggregates: every field array of the element type is havocked
+			vc.Unmodelled["copy of nested struct elements: element contents abstracted"]++
+			for _, hv := range flds {
+				vc.havocVar(st, hv)
+			}
+			return vc.fresh("copy", "Int")
+		}
+		// flat struct elements: field-wise copy of the first n elements
+		src := fr.val(c.Args[1])
+		n := vc.def("copy.n", "Int", fmt.Sprintf("(ite (<= (s_len %s) (s_len %s)) (s_len %s) (s_len %s))", d, src, d, src))
+		fn := vc.eaddrFun(et)
+		for _, hv := range flds {
+			cur := vc.look(st, hv)
+			nv := vc.fresh("copy."+hv, vc.hsort[hv])
+			vc.assume(reach, fmt.Sprintf("(forall ((a Int)) (! (= (select %s a) (ite (and (= a (%s (%s!b a) (%s!i a))) (= (%s!b a) (s_base %s)) (<= (s_off %s) (%s!i a)) (< (%s!i a) (+ (s_off %s) %s))) (select %s (%s (s_base %s) (+ (s_off %s) (- (%s!i a) (s_off %s))))) (select %s a))) :pattern ((select %s a))))",
+				nv, fn, fn, fn, fn, d, d, fn, fn, d, n, cur, fn, src, src, fn, d, cur, nv))
+			vc.set(st, hv, vc.hsort[hv], nv)
+		}
+		return n
 	}
 	ev := vc.elemVar(et)
 	E := vc.look(st, ev)
@@ -554,4 +572,37 @@ func (fr *Frame) sharedGuarantee(site ssa.Instruction, a *Addr, st *State, reach
 	}
 	fr.callSeq["guar"]++
 	vc.oblige("guarantee", fmt.Sprintf("%s/%s/shared[%s]/guarantee#%d", vc.prop, vc.qname, strings.TrimPrefix(a.Var, "F!"), fr.callSeq["guar"]), vc.DB.SharedInv[strings.TrimPrefix(a.Var, "F!")].Src, reach, g, site.Pos(), true)
+}
+
+// flatFieldVars: the heap arrays of the leaf fields of struct type T; flat is
+// false when T has nested aggregate fields (the list then covers all leaves).
+func (vc *VC) flatFieldVars(T types.Type) (vars []string, flat bool) {
+	flat = true
+	sT, ok := structOf(T)
+	if !ok {
+		return nil, false
+	}
+	for i := 0; i < sT.NumFields(); i++ {
+		a, _ := vc.fieldAddr(T, i, "0")
+		if a == nil {
+			flat = false
+			sub, _ := vc.flatFieldVars(sT.Field(i).Type())
+			vars = append(vars, sub...)
+			continue
+		}
+		vars = append(vars, a.Var)
+	}
+	return vars, flat
+}
+
+// eaddrFun: address function of struct elements of slices of T, with inverses.
+func (vc *VC) eaddrFun(et types.Type) string {
+	fn := sym("eaddr!" + typeKey(et))
+	if !vc.declared[fn] {
+		vc.declareFun(fn, []string{"Int", "Int"}, "Int")
+		vc.declareFun(fn+"!b", []string{"Int"}, "Int")
+		vc.declareFun(fn+"!i", []string{"Int"}, "Int")
+		vc.emit(fmt.Sprintf("(assert (forall ((b Int) (i Int)) (! (and (= (%s!b (%s b i)) b) (= (%s!i (%s b i)) i) (> (%s b i) 0)) :pattern ((%s b i)))))", fn, fn, fn, fn, fn, fn))
+	}
+	return fn
 }
